@@ -76,14 +76,14 @@ CHECKS['C09'] = {
 
 CHECKS['C20'] = {
     'level': 'exploration',
-    'technique': 'model-based property testing: generated attach/detach/destroy/invalidate/clock histories (with callbacks that mutate the tree) on a PulseNode tree under a simulated clock, against a per-node (attached, valid requested time) model',
+    'technique': 'model-based property testing: generated attach/detach/destroy/invalidate/clock histories (with callbacks that mutate the tree) on a PulseNode tree under a simulated clock, against a per-node (attached, valid requested time) model; second target: the same model over the participants of a real ReflectServer (server, sessions, gateways, factories, extra nodes) driven one event-loop cycle at a time under the library clock moved by offset',
     'level_text': ('Generated-history search with a reference model: the wake-up time the root reports is compared with the model minimum at every wait, every callback is checked '
                    'for attached/valid/due/scheduled-time/callback-time/once-per-pulse, every attached node must have been asked before each wait, and due nodes must fire in the same cycle '
                    '(no callback mutation) or be still due with a wake-up <= now and fire in the quiet follow-up cycle (callback mutation). Held = no disagreement on everything generated.'),
-    'level_note': 'Trusted: the model of validity (a requested time stays valid until the node is pulsed, invalidated, detached or re-attached). Destroying nodes from inside callbacks is outside the domain (the library keeps raw pointers up the call stack).',
+    'level_note': 'Trusted: the model of validity (a requested time stays valid until the node is pulsed, invalidated, detached or re-attached). Callbacks destroy only nodes that are provably off the call stack (the library keeps raw pointers up the call stack). The server leg judges with clock readings taken before and after each cycle (the real clock keeps running under the offset): a time between the two readings is not judged either way.',
     'rule': ('Byte-decoded histories (<=80 steps, 7 nodes): attach/re-parent, detach, invalidate (with/without clearing), destroy, and event-loop cycles (ask, advance clock to/before/past the wake-up, pulse); '
              'GetPulseTime answers drawn from {never, past, now, soon, later}; callbacks run up to two mutations. Non-trivial: a pulse fired >=2 nodes at different depths, or a callback mutated the tree. '
-             'Distinct: hash of the decoded step bytes.'),
+             'Distinct: hash of the decoded step bytes. c20_server: byte-decoded histories (<=60 steps) of joins, departures, factory installation / removal / readiness, node attachment, invalidations, clock jumps and event-loop cycles; non-trivial: >= 3 cycles, >= 2 callbacks fired, >= 1 clock jump.'),
     'assumptions': [],
     'targets': [
         {'name': 'c20_pulsenode', 'src': ['harness/C20_pulsenode.cpp'], 'quick_n': 10000000, 'thorough_n': 80000000, 'maxlen': 400, 'min_nontrivial': 1000000,
@@ -413,6 +413,31 @@ CHECKS['C06'] = {
          'class_floors': {'mode_isolation': 10000, 'mode_cleanup': 10000, 'case_adversary_addressed_victim_subtree': 3000, 'case_cut_strictly_inside_pending_output': 3000, 'privileged_commands_bounced': 1000, 'case_leaver_dropped_subscriptions_while_muted': 3000, 'case_server_grants_ban_privileges_but_not_kick': 2000, 'case_adversary_used_a_path_that_begins_like_its_own_root': 1500}},
     ],
 }
+
+
+# What the fourth and fifth seeding rounds added to the generators and oracles (DESIGN.md I.3 and I.6), appended to the level texts above.
+_LATER = {
+    'C01': 'Also: copies of the Message under construction (copy constructor, assignment over a Message in use, pooled copy) are kept and must still flatten to the bytes they had when taken, whatever is done to the original afterwards; copies are modified (items removed / added / replaced, fields removed, emptied, written through GetPointerToNormalizedFieldData) and the original must keep its bytes; fields are swapped with another Message and back (SwapName), contents swapped out and moved back (SwapContents, move assignment); the checksum of a Message equals that of its parsed copy.',
+    'C02': 'Also (gateways target): a packet tunnel with a small maximum incoming Message size fed, by one sender, Messages below and above the limit (none above may be delivered, whatever preceded it); binary frames larger than the 2048-byte scratch buffer whose last field claims 1-8 bytes more than the frame holds (exactly-sized heap receive buffer: an over-read is an ASan report); tunnel receivers whose MTU is fitted to the last datagram.',
+    'C03': 'Also: the micro C sender keeps preparing Messages while earlier ones are still partly in its (small) output buffer, so that the buffer is compacted with output pending.',
+    'C04': 'Also: SETDATA with the supercede flag (earlier queued updates of the same node are dropped in favour of the new one).',
+    'C05': 'Also (traversal mode): a third of the multi-key GETDATAs carry one filter per key (v == k, or an empty placeholder); node payloads differ in v; PathMatcher::MatchesPath is called with the payload and compared, node by node, with an independent key-by-key evaluation (clause-by-clause match, then that key\'s own filter) as well as with the traversal.',
+    'C06': 'Also (isolation): fully-qualified paths that begin with the characters of the adversary\'s own root path and then go on (a neighbour\'s address that a careless prefix test takes for one\'s own); after every adversary command no node may exist outside the subtrees of the connected sessions; a server that grants some privileges but not the one a command needs.',
+    'C07': 'Also: raw-bytes filters (RawDataQueryFilter, all 12 operators, byte strings shorter than / as long as / longer than the field values they meet, with and without a default) in the shared command generator.',
+    'C08': 'Also: the MiniMessage builder puts a third of the fields under a longer working name and renames them (MMRenameField) to their real, shorter name, a third the other way round; the common frame stream is also read by the C++ MessageIOGateway.',
+    'C10': 'Also: the only reference to an object stops counting (SetRef(p, false): the object is in its owner\'s custody, must stay intact and must not be handed out by the pool) and resumes; after every history, on the idle pool, obtain/release cycles of a single object must settle (a settled cycle constructs and destroys nothing: released objects are kept within the budget).',
+    'C11': 'Also: an owner that collects replies by dispatched callbacks only (it sleeps until its callback mechanism is asked for a dispatch); a Thread started and shut down with nothing ever sent.',
+    'C12': 'Also (stream transport): the stream accepts the sender\'s writes in generated pieces (short writes, would-block); a third of the packet-tunnel cases with a slave use a RawDataMessageIOGateway slave with chunks of up to 20000 bytes (more than that gateway reads in one call), compared as a byte stream.',
+    'C13': 'Also: SETDATA with the supercede flag on indexed nodes while index updates are still queued.',
+    'C14': 'Also (arbitrary expression strings): point and rect operands and casts with components missing, defaults in point/rect syntax.',
+    'C15': 'Also: matcher objects that held a pattern of another kind before (negated, numeric range, literal, regex, comma list); SegmentedStringMatcher objects given two patterns in a row, either possibly negated as a whole; PathMatcher holding 1-4 path patterns of depth 1-2 (one possibly removed again) against all paths over a 5-name alphabet, with and without leading slash, compared with a pattern-by-pattern, clause-by-clause evaluation.',
+    'C16': 'Also: far-out indices (0xFFFFFFFF = a failed search passed on, 0x80000000, 0x7FFFFFFF) for RemoveItemAt / ReplaceItemAt / IsIndexValid / GetWithDefault / RemoveItemAtWithDefault; InsertItemsAt with a sub-range of the Queue itself.',
+    'C17': 'Also: the char-typed tests (StartsWith / EndsWith / Equals and their IgnoreCase forms) asked about the String\'s own first and last byte (any byte value), their case-flipped twins and a foreign byte.',
+    'C20': 'Second target (c20_server): the pulse tree as the ReflectServer event loop drives it, under the library clock moved with SetPerProcessRunTime64Offset(): the server object, sessions, their gateways, session factories (ready or not ready to accept) and plain nodes below the server and below factories answer GetPulseTime() with generated times; one step = ServerProcessLoop(0, &next). Oracle: every participant that is part of the server was asked before the wait, the reported wake-up equals the minimum of the answers, a participant whose time is at or before the clock reading taken before the cycle has fired, none whose time is after the reading taken after the cycle has, scheduled time = requested time, never twice per cycle, never outside the loop, never after leaving. First target also: GetPulseTime() answers that invalidate a child or adopt a detached node.',
+}
+for _k, _v in _LATER.items():
+    _t = CHECKS[_k]['level_text']
+    CHECKS[_k]['level_text'] = (_t if isinstance(_t, str) else ''.join(_t)) + ' ' + _v
 
 
 def setup():
